@@ -399,3 +399,21 @@ def run(ctx):
             break
     ctx.require(nid is not None, "NC_ENOTINDEFINE not found")
     r4inplace.check_growguard(ctx, prog, "R4.growguard", nid)
+    from rules import r10nameeq
+    ctx.rule("R10.nameeq", "every comparison of a stored object name with a looked-up string is a whole-string comparison (strcmp, or "
+             "a bounded comparison under an equal-length test on the same object)")
+    r10nameeq.check(ctx, prog, "R10.nameeq", 4)
+    from rules import r8normlen
+    ctx.rule("R8.normlen", "NC_MAX_NAME holds for the NFC-normalised name: ncmpii_check_name evaluated with normalised lengths around the "
+             "limit refuses those above it, and every dispatcher path that hands a user-supplied name to a name-storing driver slot has "
+             "passed ncmpii_check_name")
+    mx = None
+    for u in prog.units.values():
+        if "NC_MAX_NAME" in u.macros:
+            try:
+                mx = int(u.macros["NC_MAX_NAME"].strip("() "), 0)
+            except ValueError:
+                pass
+            break
+    ctx.require(mx, "macro NC_MAX_NAME not found / not a constant")
+    r8normlen.check(ctx, prog, "R8.normlen", mx)
